@@ -229,29 +229,7 @@ fn stream_write_all_plumbing() {
     vk::vk_cover!(r.is_ok() && w.calls == 2, "two runs delivered");
 }
 
-// ---- `core::fmt::write` as an uninterpreted formatter --------------------------------------
-//
-// CBMC does not finish on the real `core::fmt::write` (its `fmt::Arguments` function pointers
-// may target every formatting function in the crate graph).  What a caller of `fmt::write` may
-// rely on is its documented contract: the rendered text arrives as a sequence of `write_str`
-// calls on `output`, in order; the first `write_str` error stops the rendering and is returned; a
-// formatting trait may also fail on its own.  The stand-ins below have exactly that shape with
-// two fixed fragments (Kani: `kani::stub(core::fmt::write, ..)`; the native replay build runs the
-// real `fmt::write` on a format string that renders to the same two fragments).
-
-pub(crate) static FRAG1: &str = "ab";
-pub(crate) static FRAG2: &str = "c";
-
-pub(crate) fn fmt_write_two_fragments(output: &mut dyn core::fmt::Write, _args: core::fmt::Arguments<'_>) -> core::fmt::Result {
-    output.write_str(FRAG1)?;
-    output.write_str(FRAG2)
-}
-
-/// a formatting trait that fails after the first fragment (no error from `output`)
-pub(crate) fn fmt_write_failing_trait(output: &mut dyn core::fmt::Write, _args: core::fmt::Arguments<'_>) -> core::fmt::Result {
-    output.write_str(FRAG1)?;
-    Err(core::fmt::Error)
-}
+use crate::verif_kani::fmt_stub::{fmt_write_failing_trait, fmt_write_two_fragments, FRAG1, FRAG2};
 
 struct FailingDisplay;
 impl std::fmt::Display for FailingDisplay {
@@ -317,29 +295,3 @@ fn stream_write_fmt_formatter_error() {
     assert!(matches!(&r, Err(e) if e.kind() == ErrorKind::Other), "a formatter error without inner error is reported as Other, never as success");
 }
 
-/// StripStream's Write impl forwards each method once, through one lock acquisition
-#[cfg_attr(kani, kani::proof, kani::unwind(8), kani::stub(crate::adapter::strip::next_bytes, crate::adapter::verif_kani_strip_scan::next_bytes_recorder))]
-#[cfg_attr(not(kani), test)]
-fn stream_methods_forward() {
-    use crate::stream::verif_kani_mock::Mock;
-    let which = vk::any_u8_in(0, 3);
-    let mut s = StripStream::new(Mock::new(0));
-    let data: &[u8] = b"ab";
-    if which == 0 {
-        let r = s.write(data);
-        assert!(r.is_ok(), "write succeeds on a good writer");
-    } else if which == 1 {
-        let empty: &[u8] = b"";
-        let bufs = [std::io::IoSlice::new(empty), std::io::IoSlice::new(data)];
-        let r = s.write_vectored(&bufs);
-        assert!(r.is_ok(), "write_vectored succeeds on a good writer");
-        assert!(rec(0).in_ptr == data.as_ptr() as usize && rec(0).in_len == 2, "write_vectored writes the first non-empty buffer");
-    } else if which == 2 {
-        assert!(s.write_all(data).is_ok(), "write_all succeeds on a good writer");
-    } else {
-        assert!(s.flush().is_ok(), "flush succeeds on a good writer");
-    }
-    let m = s.into_inner();
-    assert!(m.locks == 1, "every Write method of StripStream acquires the inner lock exactly once");
-    assert!(m.flushes == if which == 3 { 1 } else { 0 }, "flush reaches the inner writer exactly when asked");
-}
